@@ -552,7 +552,7 @@ func (c *Check) isolateCrashers(corpus *common.Corpus) map[int]bool {
 func (c *Check) grow() {
 	iters := c.GrowIters
 	if iters == 0 {
-		iters = 60000
+		iters = 150000
 		if c.Tier == "thorough" {
 			iters = 1500000
 		}
@@ -608,7 +608,7 @@ func (c *Check) grow() {
 			c.Grow.Kept++
 		}
 	}
-	c.CStats.Grown = c.Grow.Kept
+	c.CStats.Grown += c.Grow.Kept
 	// token families (words from the library's own tables)
 	var dict []string
 	if data, err := os.ReadFile(filepath.Join(c.E.Scratch, "ses", "grow0.txt.dict")); err == nil {
